@@ -337,6 +337,10 @@ where
                 let rx_packet = RxPacket::Pubrec(pubrec);
                 let action_id = utils::rx_action_id(&rx_packet);
 
+                // The PUBLISH is acknowledged, it must not be sent again on session resumption.
+                utils::linear_search_by_key(&session.retrasmit_queue, action_id)
+                    .and_then(|pos| session.retrasmit_queue.remove(pos));
+
                 if let Some((_, sender)) =
                     utils::linear_search_by_key(&session.awaiting_ack, action_id)
                         .and_then(|pos| session.awaiting_ack.remove(pos))
